@@ -382,6 +382,24 @@ def r11b(ctx):
                     for pl in [st['rv'].get('p')] + [((o.get('c') or o.get('m')) if isinstance(o, dict) else None) for o in [st['rv'].get('op'), st['rv'].get('a'), st['rv'].get('b')] + list(st['rv'].get('ops') or [])]:
                         if pl and 'depth' in place_fields(pl):
                             reads_depth = True
+        # which entry types are visited again at a smaller level?  everything that can have something below it: directories AND links
+        adt = lib.adts.get('walk::EntryType') or {}
+        variants = [v['name'] if isinstance(v, dict) else v for v in adt.get('variants', [])]
+        revisit = None
+        for x in bodies:
+            for c in x.calls(r'PartialEq.*>::(eq|ne)$|PartialEq::(eq|ne)$'):
+                named = None
+                for a in c.args:
+                    for v in slice_const_values(lib, backslice(x, [a])):
+                        m = re.search(r'EntryType::(\w+)$', v or '')
+                        if m:
+                            named = m.group(1)
+                if named:
+                    revisit = ({named} if c.path.endswith('eq') else set(variants) - {named})
+        if revisit is not None:
+            ctx.check({'Dir', 'SymLink'} <= revisit, rule, mk.path + '|links-revisit-too', mk.where(), 'directories and symbolic links are visited again at a smaller level (%s)' % sorted(revisit),
+                      'only %s are visited again when reached at a smaller level: a link to a directory has a subtree as well (its target is visited at the level of the link), so when the deeper route reaches '
+                      'the link first, what the shallower route could read within --depth is lost - and which route is first depends on the order of the input paths and on --threads' % sorted(revisit))
         ctx.check(not reads_depth, rule, mk.path + '|smaller-level-revisits', mk.where(), 'an entry reached at a smaller level than before is visited again, whatever the depth limit',
                   'a re-visit at a smaller level is allowed only when --depth is given: otherwise an input path (level 0) that another input path reached first is not walked with its own ignore rules and root device '
                   '- `group S/sub S -L` loses the files of S/sub that S/.gitignore ignores, `group S S/sub -L` does not')
